@@ -52,6 +52,9 @@ def _sha(x) -> str:
     return hashlib.sha1(repr(x).encode()).hexdigest()[:20]
 
 
+_SHARED = None  # (path, fmt) -> loaded object, when the sequential phase shares source objects between calls
+
+
 def run_call(call, workdir):
     """Execute one API call; canonical result string (no addresses, tmp paths normalised)."""
     from iodata import dump_many, dump_one, load_many, load_one, write_input
@@ -68,7 +71,21 @@ def run_call(call, workdir):
                 frames = list(load_many(call[1], fmt=call[2]))
                 return f"objs:{len(frames)}:" + _sha([snap(o) for o in frames])
             out = os.path.join(workdir, call[5] if len(call) > 5 else "out")
-            src = None if kind == "convert" else load_one(call[1], fmt=call[2])
+            if kind == "convert":
+                src = None
+            elif _SHARED is not None:
+                # load once, dump many times — as a script does; a dump that alters its argument shows up in the next dump
+                key = (call[1], call[2])
+                if key not in _SHARED:
+                    _SHARED[key] = load_one(call[1], fmt=call[2])
+                src = _SHARED[key]
+            else:
+                src = load_one(call[1], fmt=call[2])
+            if kind == "dump_reload":
+                # write, then read the written file back: loaders also meet files in iodata's own style
+                dump_one(src, out, fmt=call[3], allow_changes=call[4])
+                o = load_one(out, fmt=call[3])
+                return "obj:" + _sha(snap(o))
             if kind == "dump_one":
                 dump_one(src, out, fmt=call[3], allow_changes=call[4])
             elif kind == "dump_many":
@@ -89,8 +106,13 @@ def run_call(call, workdir):
 def _worker_main():
     spec = json.loads(sys.stdin.read())
     tmp = tempfile.mkdtemp(prefix="c16w_")
+    global _SHARED
     try:
-        res = [run_call(c, os.path.join(tmp, "w")) for c in spec["calls"]]
+        res = []
+        for k, c in enumerate(spec["calls"]):
+            if spec.get("shared_from") is not None and k >= spec["shared_from"] and _SHARED is None:
+                _SHARED = {}
+            res.append(run_call(c, os.path.join(tmp, "w")))
     finally:
         shutil.rmtree(tmp, ignore_errors=True)
     print(json.dumps(res))
@@ -107,22 +129,31 @@ def _fresh(call):
     return json.loads(p.stdout.strip().splitlines()[-1])[0]
 
 
-def _fresh_seq(calls):
+_RELOADABLE = {"xyz", "sdf", "pdb", "mol2", "cube", "fchk", "molden", "molekel", "wfn", "wfx", "json", "json_qcschema", "poscar", "fcidump"}
+
+
+def _fresh_seq(calls, shared_from=None):
     """Run a whole history in one fresh interpreter; result of its last call."""
     env = dict(os.environ)
     here = os.path.dirname(os.path.dirname(os.path.dirname(os.path.abspath(__file__))))
     env["PYTHONPATH"] = here + (os.pathsep + os.environ["IODATA_REPO"] if os.environ.get("IODATA_REPO") else "")
     p = subprocess.run([sys.executable, "-c", "from vh.props.c16 import _worker_main; _worker_main()"],
-                       input=json.dumps({"calls": calls}), capture_output=True, text=True, env=env, timeout=1200)
+                       input=json.dumps({"calls": calls, "shared_from": shared_from}), capture_output=True, text=True, env=env,
+                       timeout=1200)
     if p.returncode != 0:
         return None
     return json.loads(p.stdout.strip().splitlines()[-1])[-1]
 
 
-def _shrink(history, call, ref, budget=14):
+def _shrink(history, call, ref, budget=14, shared=False):
     """Smallest history found (halving, then single removal) after which `call` still differs from `ref`."""
     hist = list(history)
-    if _fresh_seq([*hist, call]) in (None, ref):
+    if shared:
+        # sharing of loaded objects from the start is a superset of what the run did
+        run = lambda cs: _fresh_seq(cs, 0)  # noqa: E731
+    else:
+        run = _fresh_seq
+    if run([*hist, call]) in (None, ref):
         return history  # not reproducible from a fresh interpreter in this order: keep everything
     step = max(1, len(hist) // 2)
     while budget > 0 and hist:
@@ -130,7 +161,7 @@ def _shrink(history, call, ref, budget=14):
         while i < len(hist) and budget > 0:
             cand = hist[:i] + hist[i + step:]
             budget -= 1
-            r = _fresh_seq([*cand, call])
+            r = run([*cand, call])
             if r is not None and r != ref:
                 hist, progressed = cand, True
             else:
@@ -145,8 +176,16 @@ def _pool(ctx):
     rng = ctx.rng
     files = corpus.files(max_size=ctx.n(60_000, 200_000))
     rng.shuffle(files)
+    # stratified: one file of every loadable format first (every loader runs at least once), the rest at random
+    first, seen_fmt = [], set()
+    for p in files:
+        f = corpus.select_fmt(p)
+        if f is not None and f not in seen_fmt:
+            seen_fmt.add(f)
+            first.append(p)
+    files = first + [p for p in files if p not in first]
     calls = []
-    nload = ctx.n(36, 150)
+    nload = max(ctx.n(160, 400), len(first) + 8)  # every corpus file below the size limit: each loader meets every style of file
     for p in files[:nload]:
         fmt = corpus.select_fmt(p)
         if fmt is None:
@@ -174,10 +213,15 @@ def _pool(ctx):
         if p.exists():
             srcs.append(["load_one", str(p), corpus.select_fmt(p)])
     k = 0
+    reloaded = set()
     for s in srcs:
         for fmt in rng.sample(corpus.DUMP_ONE, ctx.n(3, 8)) + (["wfx"] if s[1].endswith((".fchk", ".wfn", ".molden")) else []):
             k += 1
             calls.append(["dump_one", s[1], s[2], fmt, rng.random() < 0.5, f"o{k}.{corpus.EXT.get(fmt, fmt)}"])
+            if fmt in _RELOADABLE and (fmt not in reloaded or rng.random() < 0.15):
+                reloaded.add(fmt)
+                k += 1
+                calls.append(["dump_reload", s[1], s[2], fmt, True, f"r{k}.{corpus.EXT.get(fmt, fmt)}"])
         if rng.random() < 0.4:
             k += 1
             fmt = rng.choice(corpus.DUMP_MANY)
@@ -185,6 +229,12 @@ def _pool(ctx):
         if rng.random() < 0.4:
             k += 1
             calls.append(["write_input", s[1], s[2], rng.choice(["gaussian", "orca", "nosuchprogram"]), False, f"i{k}.in"])
+    # every (small) corpus file of a format that can also be written: written back in its own format
+    same = [c for c in calls if c[0] == "load_one" and c[2] in corpus.DUMP_ONE]
+    rng.shuffle(same)
+    for c in same[: ctx.n(70, 300)]:
+        k += 1
+        calls.append(["dump_one", c[1], c[2], c[2], True, f"s{k}.{corpus.EXT.get(c[2], c[2])}"])
     # conversions through the library function behind the command-line tool
     for s in srcs[: ctx.n(6, 20)]:
         k += 1
@@ -304,16 +354,21 @@ def search(ctx):
         # make sure a WFX dump precedes other dumps at least once (the historical defect)
         wfx = [i for i, c in enumerate(calls) if c[0] == "dump_one" and c[3] == "wfx"]
         order = wfx[:2] + order
+        global _SHARED
         for n, i in enumerate(order):
+            # second half of the history: the objects to dump are loaded once and shared by all later calls
+            _SHARED = {} if (n >= len(order) // 3 and _SHARED is None) else _SHARED
             r = run_call(calls[i], os.path.join(tmp, f"s{n}"))
             ok = r == ref[i]
             ctx.count("sequential", calls[i], calls[i][0] + ("/ok" if ok else "/DIFF"), sample={"call": calls[i], "result": r})
             if not ok:
                 ctx.fail(f"history-dependent:{calls[i][0]}:{calls[i][3] if len(calls[i]) > 3 else calls[i][2]}",
                          f"call {calls[i]} returned {r} after a history of {n} calls but {ref[i]} alone in a fresh interpreter",
-                         {"call": calls[i], "history": _shrink([calls[j] for j in order[:n]], calls[i], ref[i]),
-                          "mode": "sequential"})
+                         {"call": calls[i], "history": _shrink([calls[j] for j in order[:n]], calls[i], ref[i],
+                                                                 shared=_SHARED is not None),
+                          "mode": "sequential", "shared": _SHARED is not None})
                 break
+        _SHARED = None
         t1 = _tables()
         for k in sorted(set(tables0) | set(t1)):
             if tables0.get(k) != t1.get(k):
@@ -393,8 +448,13 @@ def replay(ctx, obj):
                             run_call(["dump_one", str(p), fmt, f, True, "x"], os.path.join(tmp, "r"))
             return _tables() != t0
         ref = _fresh(inp["call"])
-        for n, c in enumerate(inp.get("history", [])):
-            run_call(c, os.path.join(tmp, f"h{n}"))
-        return run_call(inp["call"], os.path.join(tmp, "final")) != ref
+        global _SHARED
+        _SHARED = {} if inp.get("shared") else None
+        try:
+            for n, c in enumerate(inp.get("history", [])):
+                run_call(c, os.path.join(tmp, f"h{n}"))
+            return run_call(inp["call"], os.path.join(tmp, "final")) != ref
+        finally:
+            _SHARED = None
     finally:
         shutil.rmtree(tmp, ignore_errors=True)
